@@ -1,5 +1,5 @@
 #!/usr/bin/env python3
-"""mkseedprompts.py <round-letter> — prepare an independent seeded-break round.
+"""mkseedprompts.py <round-letter> [two] — prepare an independent seeded-break round.
 
 For every property creates a scratch worktree /tmp/sb/Cxx of /repo (HEAD) and
 /tmp/sb/out/Cxx/PROMPT.txt from tools/seedprompt_template.txt. The prompt holds only
@@ -10,7 +10,7 @@ tools/seedtest.sh Cxx /tmp/sb/out/Cxx, keep as seeded/Cxx-<letter>/, and
 `git -C /repo worktree remove --force /tmp/sb/Cxx`."""
 import glob, json, os, subprocess, sys
 letter = sys.argv[1]
-tmpl = open('/verif/tools/seedprompt_template.txt').read()
+tmpl = open('/verif/tools/seedprompt_template2.txt' if len(sys.argv) > 2 and sys.argv[2] == 'two' else '/verif/tools/seedprompt_template.txt').read()
 props = {}
 for l in open('/verif/properties.jsonl'):
     d = json.loads(l)
@@ -21,6 +21,8 @@ for pid, d in props.items():
     if not os.path.isdir(wt):
         subprocess.check_call(['git', '-C', '/repo', 'worktree', 'add', '-q', '--detach', wt, 'HEAD'])
     os.makedirs(out, exist_ok=True)
+    os.makedirs(out + '/A', exist_ok=True)
+    os.makedirs(out + '/B', exist_ok=True)
     earlier = []
     for m in sorted(glob.glob('/verif/seeded/%s-*/meta.json' % pid)):
         earlier.append('(%d) %s' % (len(earlier) + 1, json.load(open(m))['change']))
